@@ -34,6 +34,9 @@ def regexlit(pattern: str) -> str:
     #   cannot hold their own quote character or a line break
     if not pattern:
         return "?''"
+    if pattern == '.':
+        # NOTE /./ is the any-character expression, which also matches a line break
+        return "?'.'"
     if '/' not in pattern:
         return f'/{pattern}/'
     if '"' not in pattern and '\n' not in pattern:
